@@ -28,7 +28,8 @@ def binary_scripts(data, tool, game, msg_mode=None):
     if tool == 'std': return {'std-script': [L.parse_std(data, game)['script']]}
     if tool == 'ecl':
         p = L.parse_ecl06(data, game)
-        return {'olde-ecl-sub': [s['instrs'] for s in p['subs']]}
+        # (timelines are exported as `scl-script`; position in the file = running timeline index for sources without explicit indices)
+        return {'olde-ecl-sub': [s['instrs'] for s in p['subs']], 'scl-script': [t['instrs'] for t in p['timelines']]}
     if tool == 'msg':
         m = L.parse_msg(data, game)
         return {'msg-script': m}
@@ -49,6 +50,9 @@ def check_offsets(ctx, dbg, data, gf, replay):
                 ctx.violation('debuginfo:msg-indices', 'indices %s do not all point to one script' % ea['indices'], replay); return False
         elif ty in bs:
             lst = bs[ty]
+            if ty == 'scl-script':
+                if len([x for x in dbg['exported-scripts'] if x['exported-as']['type'] == 'scl-script']) != len(lst): continue
+                ctx.count('timelines_checked')
             if ea.get('index', 0) >= len(lst): ctx.violation('debuginfo:script-missing:%s' % ty, 'index %s of %d' % (ea.get('index'), len(lst)), replay); return False
             instrs = lst[ea.get('index', 0)]
         else:
